@@ -153,6 +153,11 @@ def gen_doc(rng, kind):
         k = rng.choice(NESTED.get(kind) or [b"Epoch", b"Revision", b"Native", b"Relations", b"ABI", b"OS", b"CPU"])
         if k not in present and (k + b":") not in text:
             text += k + b": " + rng.choice([b"3", b"x y", b"yes"]) + b"\n"
+    if kind in ("dsc", "changes") and rng.random() < 0.15 and b"\nFilename:" not in b"\n" + text:
+        # a field called Filename (dpkg-source writes one for an XS-Filename; Marshal of a DSC used to write the local path out
+        # as one): it does not replace the path the document was parsed from
+        # (judged through the accessors: Filename and AbsFiles of the parsed document are those of the path it was parsed from)
+        text += b"Filename: " + rng.choice([b"pool/main/h/hello/hello_2.10-2.dsc", b"/etc/x.changes", b"../elsewhere/y"]) + b"\n"
     ondemand = {}
     for f in ONDEMAND.get(kind, []):
         r = rng.random()
@@ -188,7 +193,7 @@ def load_nested(chk):
     kinds = ["dsc", "changes", "source_par", "binary_par", "binary_index", "source_index", "deb_control"]
     for kind, r in zip(kinds, chk.run_impl([("tfieldnames", [k.encode()]) for k in kinds])):
         own = {deb.encode() for deb, _, _ in TABLES[kind]} | {go.encode() for _, _, go in TABLES[kind]}
-        NESTED[kind] = [x for x in (bytes.fromhex(h[1:]) for h in r.strip("[] ").split()) if x not in own and x != b"Filename"]
+        NESTED[kind] = [x for x in (bytes.fromhex(h[1:]) for h in r.strip("[] ").split()) if x not in own]
     chk.extra["nested_field_names"] = {k: [x.decode() for x in v] for k, v in NESTED.items()}
 
 
